@@ -855,9 +855,9 @@ pub fn run_close(servers: &Servers, case: &CloseCase) -> Vec<(String, String)> {
 
 /// The peer closes its own sending direction (EOF on the pipe / TLS close_notify), stays around, and stops
 /// reading. The outstanding request and a large follow-up request must both fail in bounded time.
-pub fn run_half_close(servers: &Servers, xport: Xport, followup_bytes: usize) -> Vec<(String, String)> {
+pub fn run_half_close(servers: &Servers, xport: Xport, followup_bytes: usize, idle: bool) -> Vec<(String, String)> {
     let mut problems = Vec::new();
-    let plan = ClientPlan { requests: 1, followup: true, idle_before: Duration::ZERO, collect_after_all_sent: false, big_request: None, collect_delay: Duration::ZERO, big_followup: Some(followup_bytes) };
+    let plan = ClientPlan { requests: usize::from(!idle), followup: true, idle_before: if idle { Duration::from_millis(300) } else { Duration::ZERO }, collect_after_all_sent: false, big_request: None, collect_delay: Duration::ZERO, big_followup: Some(followup_bytes) };
     let running = start(servers, xport, plan);
     let Some(mut peer) = running.peer else {
         return vec![("machinery:no-peer".into(), "the client never reached the fake peer".into())];
@@ -865,8 +865,11 @@ pub fn run_half_close(servers: &Servers, xport: Xport, followup_bytes: usize) ->
     let log = running.log;
     _ = peer.send_chunk(server_hello().as_bytes());
     _ = peer.read_message(Duration::from_secs(2)); // client hello
-    if peer.read_message(Duration::from_secs(2)).is_none() {
+    if !idle && peer.read_message(Duration::from_secs(2)).is_none() {
         problems.push(("machinery:no-request".into(), "the request never arrived".into()));
+    }
+    if idle {
+        _ = wait_until(Duration::from_secs(2), || log.lock().unwrap().established.is_some());
     }
     let cpu_before = cpu_time();
     let t0 = Instant::now();
@@ -1128,10 +1131,10 @@ pub fn run_c07(report: &mut Report) {
     // the peer closes only its sending direction and stops reading; then a request larger than what the
     // connection buffers
     if stuck_runtimes < 10 {
-        for (xport, bytes) in [(Xport::Local, 300_000usize), (Xport::Tls, 16_000_000)] {
+        for (xport, bytes, idle) in [(Xport::Local, 300_000usize, false), (Xport::Tls, 16_000_000, false), (Xport::Local, 300_000, true), (Xport::Tls, 16_000_000, true)] {
             evaluations += 1;
-            _ = distinct.insert(format!("{xport:?}|half-close"));
-            let problems = run_half_close(&servers, xport, bytes);
+            _ = distinct.insert(format!("{xport:?}|half-close|{idle}"));
+            let problems = run_half_close(&servers, xport, bytes, idle);
             if !problems.is_empty() {
                 servers.reset_runtime();
             }
@@ -1139,7 +1142,8 @@ pub fn run_c07(report: &mut Report) {
                 if class.starts_with("machinery") {
                     panic!("machinery failure in the half-close case: {what}");
                 }
-                report.violation(&format!("C07:{class}:{xport:?}:peer-half-closes-and-stops-reading"), &format!("{xport:?}, follow-up request of {bytes} bytes: {what}"), json!({"transport": format!("{xport:?}"), "followup_request_bytes": bytes}));
+                let when = if idle { "peer-half-closes-while-idle-and-stops-reading" } else { "peer-half-closes-and-stops-reading" };
+                report.violation(&format!("C07:{class}:{xport:?}:{when}"), &format!("{xport:?}, {} follow-up request of {bytes} bytes: {what}", if idle { "no request outstanding at the time," } else { "one request outstanding at the time," }), json!({"transport": format!("{xport:?}"), "followup_request_bytes": bytes, "idle": idle}));
             }
         }
     }
